@@ -56,6 +56,7 @@ class Check:
         self.call_sites = 0
         self.notes = []
         self.declined = []
+        self.selftest = None
         self.assumptions = [
             'only normal-exit paths are obligations (paths that leave through '
             'an exception abort the document)',
@@ -155,9 +156,11 @@ def finish(chk, level='other'):
             knowns.append((f, k))
         else:
             violations.append(f)
-    os.makedirs(os.path.join(VERIF, 'out'), exist_ok=True)
+    quiet = bool(os.environ.get('VERIF_SUBRUN'))
+    outdir = os.environ.get('VERIF_SUBRUN_OUT') or os.path.join(VERIF, 'out')
+    os.makedirs(outdir, exist_ok=True)
     os.makedirs(os.path.join(VERIF, 'evidence'), exist_ok=True)
-    replay = os.path.join(VERIF, 'out', '%s.violations.json' % chk.prop)
+    replay = os.path.join(outdir, '%s.violations.json' % chk.prop)
     for f, k in knowns:
         print('KNOWN-FINDING: property=%s rule=%s %s -- %s [%s]'
               % (chk.prop, f.rule, f.key, k.get('what', f.msg), f.where))
@@ -228,8 +231,11 @@ def finish(chk, level='other'):
         'wall_s': round(time.time() - chk.t0, 3),
         'violations': len(violations),
     }
-    with open(os.path.join(VERIF, 'evidence', '%s.json' % chk.prop), 'w') as fh:
-        json.dump(ev, fh, indent=1, default=str)
+    if chk.selftest is not None:
+        ev['coverage']['selftest'] = chk.selftest
+    if not quiet:
+        with open(os.path.join(VERIF, 'evidence', '%s.json' % chk.prop), 'w') as fh:
+            json.dump(ev, fh, indent=1, default=str)
     print('%s tier=%s obligations=%d discharged=%d known=%d violations=%d '
           'functions=%d wall=%.2fs'
           % (chk.prop, chk.tier, n_obl, n_ok, len(knowns), len(violations),
@@ -242,6 +248,16 @@ def run(prop, tier, body):
     chk = Check(prop, tier)
     try:
         body(chk)
+        known_keys = {(k['rule'], k['key']) for k in load_known() if k['property'] == prop and k.get('status') == 'known'}
+        clean = all((f.rule, f.key) in known_keys for f in chk.findings)
+        if tier == 'thorough' and clean and not os.environ.get('VERIF_SUBRUN'):
+            # the self-test only makes sense on a tree where the property's rules hold
+            from . import selftest
+            chk.selftest = selftest.run_for(prop)
+            missed = [x for x in chk.selftest['results'] if x['status'] == 'MISSED']
+            if missed:
+                raise AnalysisError('checker self-test: %d seeded change(s) that break %s are no longer detected: %s'
+                                    % (len(missed), prop, [x['seed'] for x in missed]))
         return finish(chk)
     except AnalysisError as e:
         print('ANALYSIS-ERROR property=%s %s' % (prop, e))
